@@ -20,6 +20,7 @@ import (
 	"github.com/postalsys/muti-metroo/internal/logging"
 	"github.com/postalsys/muti-metroo/internal/protocol"
 	"github.com/postalsys/muti-metroo/internal/recovery"
+	"github.com/postalsys/muti-metroo/internal/verifhook"
 )
 
 // State represents the current sleep state of an agent.
@@ -357,6 +358,8 @@ func (m *Manager) Poll() error {
 	m.state.Store(StatePolling)
 	m.lastPollTime = time.Now()
 	m.stateMu.Unlock()
+
+	verifhook.At("sleep.Poll.after-first-unlock")
 
 	m.logger.Debug("starting poll")
 
